@@ -35,13 +35,21 @@ func VerifC13_LoginRedirect() {
 	cfg := kc.cfg
 	sb := vn.Bound("cfg-string-bytes", 3)
 	a0 := vn.URL("https", vn.StringIn("auth-host", sb+1, alphaHost), "", "/"+vn.StringIn("auth-path", sb, alphaLower), "")
+	// endpoint shapes: no query; own query; own query with a trailing '&'; a bare trailing '?'
 	aq := ""
-	if vn.Choice("auth-uri-has-query", 2) == 1 {
+	shape := vn.Choice("auth-uri-shape", 4)
+	switch shape {
+	case 0:
+		cfg.AuthorizationUri = a0
+	case 1, 2:
 		aq = vn.StringIn("auth-query", sb+2, alphaQuery)
 		vn.Assume(len(aq) > 0)
+		if shape == 2 {
+			aq += "&"
+		}
 		cfg.AuthorizationUri = a0 + "?" + aq
-	} else {
-		cfg.AuthorizationUri = a0
+	default:
+		cfg.AuthorizationUri = a0 + "?"
 	}
 	if vn.Choice("extra-scope", 2) == 1 {
 		cfg.Scopes = []string{vn.StringIn("scope", sb, alphaLower), "openid"}
